@@ -48,7 +48,12 @@ def _test(subject, pat, binds=None):
         return ast.Call(func=ast.Name(id='isinstance', ctx=ast.Load()), args=[copy.deepcopy(subject), pat.cls], keywords=[])
     if isinstance(pat, ast.MatchSequence) and isinstance(subject, ast.Tuple) and len(subject.elts) == len(pat.patterns) \
             and not any(isinstance(p, ast.MatchStar) for p in pat.patterns):
-        parts = [_test(e, p) for e, p in zip(subject.elts, pat.patterns)]
+        parts = []
+        for e, p in zip(subject.elts, pat.patterns):
+            if isinstance(p, ast.MatchAs) and p.pattern is None and p.name is not None and binds is not None:
+                binds[p.name] = e          # `case [n, m] if n == m` over (len(a), len(b)): n stands for len(a)
+                continue
+            parts.append(_test(e, p, binds))
         parts = [p for p in parts if not (isinstance(p, ast.Constant) and p.value is True)]
         if not parts:
             return ast.Constant(value=True)
